@@ -192,12 +192,16 @@ def five_tuple(c, m=2, n=2):
     _check_operator(c, s.M, s.b_tild, s.target, n)
 
 
-def ugla(c, iface, m=2, n=3, bc='zero', noise='scalar'):
+def ugla(c, iface, m=2, n=3, bc='zero', noise='scalar', loc_form='vector'):
     """UGLA step against the documented local Gaussian approximation at the current state x_k:
     prior precision (1/b) D^T W(x_k) D with W = diag(((D x_k)^2 + beta)^(-1/2)), prior location mu"""
     A = c.mat('A', m, n); data = c.vec('y', m); nv = c.real('noise_v', pos=True)
-    loc = c.vec('loc', n); scale = c.real('scale', pos=True); beta = c.real('beta', pos=True)
-    prior = LMRF(loc, scale, bc_type=bc, geometry=cuqi.geometry.Continuous1D(n))
+    scale = c.real('scale', pos=True); beta = c.real('beta', pos=True)
+    if loc_form == 'vector':
+        loc = c.vec('loc', n); prior = LMRF(loc, scale, bc_type=bc, geometry=cuqi.geometry.Continuous1D(n))
+    else:                                                   # a scalar location stands for the constant vector (its differences do NOT vanish at a zero boundary)
+        l0 = c.real('loc0'); loc = l0 * np.ones(n) if not c.sym else np.array([l0] * n, dtype=object)
+        prior = LMRF(l0, scale, bc_type=bc, geometry=cuqi.geometry.Continuous1D(n))
     if c.sym: shims.symbolize_operators(prior)
     if noise == 'scalar':
         dd = Gaussian(LinearModel(A), nv, geometry=m); Pn = (1 / nv) * np.eye(m)
@@ -268,6 +272,8 @@ def jobs(tier):
         um = 'cuqi.experimental.mcmc._laplace_approximation' if iface == 'exp' else 'cuqi.sampler._laplace_approximation'
         for bc in ('zero', 'neumann'):
             J.append(Job(f'{tag}.UGLA:local_gaussian_approximation:bc={bc}:correlated_noise', lambda c, i=iface, bc=bc: ugla(c, i, 2, 3, bc, 'dense'), 'Pbox',
+                         [f'{um}:UGLA._precompute', f'{um}:UGLA.step'] if iface == 'exp' else [f'{um}:UGLA._sample'], extra=_extra, rtol=1e-5, timeout=600))
+            J.append(Job(f'{tag}.UGLA:local_gaussian_approximation:bc={bc}:scalar_location', lambda c, i=iface, bc=bc: ugla(c, i, 2, 3, bc, 'scalar', 'scalar'), 'Pbox',
                          [f'{um}:UGLA._precompute', f'{um}:UGLA.step'] if iface == 'exp' else [f'{um}:UGLA._sample'], extra=_extra, rtol=1e-5, timeout=600))
             J.append(Job(f'{tag}.UGLA:local_gaussian_approximation:bc={bc}', lambda c, i=iface, bc=bc: ugla(c, i, 2, 3, bc), 'Pbox',
                          [f'{um}:UGLA._precompute', f'{um}:UGLA.step'] if iface == 'exp' else [f'{um}:UGLA._sample'], extra=_extra, rtol=1e-5, timeout=600))
